@@ -123,6 +123,11 @@ func recoverFunc(runInfo *runInfoStruct) {
 	case *Error:
 		runInfo.err = value
 	case error:
+		if value == ErrBreak || value == ErrContinue || value == ErrReturn {
+			// the control signal of another run, which a Go function panicked with:
+			// an error of this run, never a signal for one of its loops or functions
+			value = errors.New(value.Error())
+		}
 		runInfo.err = value
 	default:
 		runInfo.err = fmt.Errorf("%v", recoverInterface)
